@@ -211,6 +211,14 @@ def series_tie():
                     "SeriesGen.")
 
 
+def runner_tie():
+    """the per-order block of SequentialRunner._handle_orders, both copies (C09, C11)"""
+    import py2coq_runner
+    src = os.path.join(REPO, "pams", "runners", "sequential.py")
+    return _run_tie("translator:pams/runners/sequential.py(_handle_orders per-order block)", src, lambda: py2coq_runner.translate(REPO),
+                    "RunnerGen.v", "RunnerC09Proofs.v", "RunnerGen.")
+
+
 def holdings_sweep_c05(seed=0, tier="quick", cov=None):
     """directed search used with the C05 tie: the real Simulator._update_agents_for_execution on small populations and fill lists
     (self-trades, repeated parties, several markets), against the property text: the buyer pays price x volume and receives volume
